@@ -108,7 +108,7 @@ func Run(r *rt.Run) error {
 	nRand, randMaxLen := 160, 120
 	countN := 14
 	if r.Thorough() {
-		specs = []enumSpec{{span(12), 6}, {[]int{0, 1, 2, 3, 5, 8, 12}, 8}}
+		specs = []enumSpec{{span(12), 5}, {[]int{0, 1, 2, 3, 5, 8, 12}, 8}}
 		nRand, randMaxLen = 1600, 300
 		countN = 30
 	}
